@@ -352,8 +352,10 @@ def r3_lattice(repo: Repo, rep):
         for D in (1, 2, 3):
             def resolve(e, ev, f, D=D):
                 t = dump(e).replace(" ", "")
-                if t in ("self.space.dim", "self.dim", "self.domain_a.dim", "self.domain_b.dim", "self.domain_a.space.dim", "self.domain_b.space.dim"):
+                if t in ("self.space.dim", "self.domain_a.space.dim", "self.domain_b.space.dim", "len(self.space)"):
                     return D
+                if t in ("self.dim", "self.domain_a.dim", "self.domain_b.dim"):
+                    return D - 1  # the intrinsic dimension of a lower-dimensional set (a boundary, a time slice) is smaller than the number of axes
                 if isinstance(e, ast.Name) and e.id in fi.params:
                     return Opaque(e.id)
                 return None
@@ -424,6 +426,24 @@ def r3_lattice(repo: Repo, rep):
                 good = isinstance(s, ast.Call) and ends(attr_chain(s.func), "repeat_interleave") and len(s.args) >= 2 and dump(s.args[1]) == "2" and "self.translate_fn(params)" in dump(s.args[0]) \
                     and (dump(kwarg(s, "dim", 2)) in ("1", "-1"))
         rep.check(R, good, fi.site(p.ret_node), fi.fq, "inner box + repeat_interleave(translation, 2, dim=1): both ends of an axis shifted equally", dump(r)[:160], dump(r)[:160])
+
+
+def r9_no_rounding(repo: Repo, rep):
+    R = rep.rule("R-C18-9", "bounds are never rounded to nearest / truncated (a box may only grow)", floor=10,
+                 why="rounding a lower bound up or an upper bound down by half a unit in the last kept place leaves points outside the box")
+    D = repo.cls(f"{DOM}.domain.Domain")
+    n = 0
+    for ci in repo.subclasses(D, strict=True):
+        fi = ci.methods.get("bounding_box")
+        if fi is None:
+            continue
+        n += 1
+        rep.saw(fi)
+        bad = sorted({dump(c)[:60] for c in ast.walk(fi.node) if isinstance(c, ast.Call) and (attr_chain(c.func) or dump(c.func)).split(".")[-1] in ("round", "round_", "trunc", "fix", "floor", "ceil", "int", "half", "bfloat16")
+                      and not (isinstance(c.func, ast.Name) and c.func.id == "int" and c.args and "dim" in dump(c.args[0]))})
+        rep.check(R, not bad, fi.site(), fi.fq, "no rounding of the bounds", str(bad[:2]), f"rounding {bad[:1]}")
+    if n == 0:
+        rep.undecided(R, D.module.relpath, D.fq, "bounding_box methods", "none found")
 
 
 def r4_r6_motions(repo: Repo, rep):
@@ -619,6 +639,7 @@ def r7_signatures(repo: Repo, rep):
 
 
 def run(repo: Repo, rep):
+    r9_no_rounding(repo, rep)
     r1_r2_primitives(repo, rep)
     r3_lattice(repo, rep)
     r4_r6_motions(repo, rep)
